@@ -151,6 +151,38 @@ pub mod unit_gibbs {
         //@|         && __vx_self.chains@[k].target == self.chains@[k].target,
         //@end
     }
+
+    // ---- lemma: the invariance corollary on finite state spaces (reals) ------------------------------------------
+    // One coordinate update with the exact full conditional has the kernel K(x -> y) = [x_-i == y_-i] pi(y_i | x_-i), with
+    // pi(b | x_-i) = pi(x_-i, b) / sum_a pi(x_-i, a).  Writing w(a) = pi(y_-i, a):  (pi K)(y) = sum_a w(a) * (w(y_i) / S) = w(y_i) = pi(y).
+    // A sweep is a composition of such updates (gibbs_step_post: every coordinate once, each on the freshest state), so it
+    // preserves pi as well.  That the user's Conditional *is* the full conditional is the user's obligation.
+    pub open spec fn wsum(w: spec_fn(int) -> real, k: int) -> real decreases k {
+        if k <= 0 { 0real } else { wsum(w, k - 1) + w(k - 1) }
+    }
+    pub proof fn lemma_wsum_scale(w: spec_fn(int) -> real, g: spec_fn(int) -> real, c: real, k: int)
+        requires forall |a: int| 0 <= a < k ==> #[trigger] g(a) == w(a) * c
+        ensures wsum(g, k) == wsum(w, k) * c
+        decreases k
+    {
+        if k > 0 {
+            lemma_wsum_scale(w, g, c, k - 1);
+            assert(g(k - 1) == w(k - 1) * c);
+            assert(wsum(w, k - 1) * c + w(k - 1) * c == (wsum(w, k - 1) + w(k - 1)) * c) by(nonlinear_arith);
+        } else {
+            assert(0real * c == 0real) by(nonlinear_arith);
+        }
+    }
+    /// the mass arriving at a state y under one coordinate update with the full conditional equals the mass of y
+    pub proof fn lemma_full_conditional_update_preserves_joint(w: spec_fn(int) -> real, g: spec_fn(int) -> real, k: int, b: int)
+        requires 0 <= b < k, wsum(w, k) > 0real,
+            forall |a: int| 0 <= a < k ==> #[trigger] g(a) == w(a) * (w(b) / wsum(w, k)),
+        ensures wsum(g, k) == w(b)      // [C05.full_conditional_update_leaves_the_joint_invariant]
+    {
+        let s = wsum(w, k);
+        lemma_wsum_scale(w, g, w(b) / s, k);
+        assert(s * (w(b) / s) == w(b)) by(nonlinear_arith) requires s > 0real;
+    }
 }
 } // verus!
 fn main() {}
